@@ -22,7 +22,7 @@ BOUND_VARS = ('i', 'j', 'k', 'n', 'e1', 'elem')
 NUM_TEXTS = ('0', '1', '2', '3', '10', '0.5', '0.25', '1.5', '100', '7', '1e3', '2.5E-2', '.5', '1.',
              '1234567890123456789', '1e308', '1e-320', '0.0', '42')
 SMALL_NUM_TEXTS = ('0', '1', '2', '3', '0.5', '10', '1.5')
-STR_TEXTS = ('"a"', '"b"', '""', '"hello world"', '"1"', '"x y"', '"not"', '"\\"q\\""')
+STR_TEXTS = ('"a"', '"b"', '""', '"hello world"', '"1"', '"x y"', '"not"', '"\\"q\\""', '"p\tq"', '"5\xa0km"')
 FUN1_NUM = ('abs', 'sqrt', 'ceil', 'floor', 'sin', 'cos', 'tan', 'asin', 'acos', 'atan', 'deg', 'rad')
 FUN_CONV = ('bool', 'int', 'float', 'str')
 FUN_AGG = ('len', 'sum', 'prod', 'max', 'min', 'gcd')
@@ -659,7 +659,8 @@ class PropGen:
             if k == 'id':
                 out.append((k, pick(r, ('p1', 'prop_%d' % n, 'id', 'title', 'no', 'safety', 'Estimate'))))
             else:
-                out.append((k, pick(r, ('"t"', '"a title"', '"globally: no a"', '"# id: x"', '"é世"', '""'))))
+                out.append((k, pick(r, ('"t"', '"a title"', '"globally: no a"', '"# id: x"', '"é世"', '""', '"a\tb"',
+                                            '"x\xa0y  z"'))))
         return tuple(out)
 
     def make(self, scope_kind=None, pat_kind=None, widths=None, n=0, with_meta=True):
